@@ -76,6 +76,7 @@ def run(v, tier):
         line = line.strip()
         if line.startswith('"SCHED '):
             scheds.append(json.loads(json.loads(line)[6:]))
+    scheds.sort(key=lambda s: (s['seed'], s['inputs']))      # TLC's workers print them in no particular order: keep the sample reproducible
     full = [s for s in scheds if len(s['inputs']) == hmax] + [s for s in scheds if len(s['inputs']) == 1]
     if len(full) > (220 if quick else 3000):
         full = rng.sample(full, 220 if quick else 3000)
